@@ -34,7 +34,9 @@ def pointFromOctets (g : CurveGroup) (pSize : Nat) (hybrid : Bool) (b : Bytes) :
       let x : Int := ofBE body
       match yEvenVar g x with
       | none => .error .xInvalid
-      | some y => .ok (x, if pfx = 2 then y else g.p - y)
+      | some y =>
+        -- since btclib d2e5d5eb: a lifted `y = 0` (the x of a point of order two) is refused, not answered
+        if y = 0 then .error .inf else .ok (x, if pfx = 2 then y else g.p - y)
     else if pfx = 4 ∨ (hybrid ∧ (pfx = 6 ∨ pfx = 7)) then
       if b.length ≠ 2 * pSize + 1 then .error .size else
       let x : Int := ofBE (body.take pSize)
